@@ -1,6 +1,8 @@
 //! d_reg: the whole ant-registers crate transplanted as `crate::reg`, with the entry-size and
 //! entry-count comparisons of register.rs made symbolic.
 #![allow(dead_code, unused_imports, unused_variables, unused_mut, clippy::all)]
+// path-qualified uses (`tracing::warn!(..)`) in transplanted code resolve to no-op macros
+extern crate noop_tracing as tracing;
 pub mod shim;
 #[path = "gen/reg/mod.rs"]
 pub mod reg;
